@@ -197,18 +197,28 @@ Lemma finish_edge_props e s d :
   (forall e', e' <> e -> st_edge (finish_edge g s e d) e' = st_edge s e') /\
   mark_of (finish_edge g s e d) e = VisitDone /\ ins_of (finish_edge g s e d) e = ins_of s e.
 Proof.
-  unfold finish_edge.
-  set (s1 := if d then mark_outputs_dirty s (edge_outs g e) else s).
-  assert (E1 : st_edge s1 = st_edge s).
-  { subst s1. destruct d; [apply st_edge_mark_outputs_dirty|reflexivity]. }
-  set (s2 := if _ then set_ready s1 e false else s1).
-  assert (L2 : local e s1 s2).
-  { subst s2. destruct (_ && _); [apply local_set_ready|apply local_refl]. }
-  destruct L2 as [L2a [L2b L2c]].
-  unfold set_mark. split; [|split].
-  - intros e' Hne. rewrite upd_edge_other by exact Hne. rewrite (L2a e' Hne), E1. reflexivity.
-  - rewrite upd_edge_same. reflexivity.
-  - rewrite upd_edge_same. cbn [es_ins]. rewrite L2c, E1. reflexivity.
+  assert (Hm : forall s0, (forall e', e' <> e -> st_edge (set_mark s0 e VisitDone) e' = st_edge s0 e') /\
+                          mark_of (set_mark s0 e VisitDone) e = VisitDone /\
+                          ins_of (set_mark s0 e VisitDone) e = ins_of s0 e).
+  { intros s0. unfold set_mark. split; [|split].
+    - intros e' Hne. apply upd_edge_other; exact Hne.
+    - rewrite upd_edge_same. reflexivity.
+    - rewrite upd_edge_same. reflexivity. }
+  unfold finish_edge. destruct d; cbn [andb].
+  - pose proof (st_edge_mark_outputs_dirty (edge_outs g e) s) as E1.
+    set (s1 := mark_outputs_dirty s (edge_outs g e)) in *.
+    destruct (negb _).
+    + destruct (Hm (set_ready s1 e false)) as [A [B C]].
+      destruct (local_set_ready e s1 false) as [L1 [L2 L3]].
+      split; [|split].
+      * intros e' Hne. rewrite (A e' Hne), (L1 e' Hne), E1. reflexivity.
+      * exact B.
+      * rewrite C, L3, E1. reflexivity.
+    + destruct (Hm s1) as [A [B C]]. split; [|split].
+      * intros e' Hne. rewrite (A e' Hne), E1. reflexivity.
+      * exact B.
+      * rewrite C, E1. reflexivity.
+  - apply Hm.
 Qed.
 
 Lemma splice_deps_props e s new_ins :
@@ -225,7 +235,9 @@ Qed.
 Lemma in_splice x ins noo new_ins : In x (splice ins noo new_ins) <-> In x ins \/ In x new_ins.
 Proof.
   unfold splice. rewrite !in_app_iff.
-  rewrite <- (firstn_skipn (length ins - noo) ins) at 3. rewrite in_app_iff. tauto.
+  assert (H : In x ins <-> In x (firstn (length ins - noo) ins) \/ In x (skipn (length ins - noo) ins)).
+  { rewrite <- in_app_iff. rewrite firstn_skipn. tauto. }
+  tauto.
 Qed.
 
 (* ---- what a successful visit may change: only edges that were unmarked, and those end Done *)
@@ -295,6 +307,502 @@ Lemma frame_of_ext e0 s s' : ext s s' -> mark_of s e0 <> VisitNone -> frame e0 s
 Proof.
   intros H Hm. split; [intros e _; apply H|].
   rewrite (ext_marked s s' e0 H Hm). reflexivity.
+Qed.
+
+(* ---- structure of one frame of RecomputeNodeDirty (the case analysis is done once, here) *)
+Lemma load_deps_recorded s e new_ins :
+  load_deps g w s e = LdOk new_ins -> incl new_ins (recorded_deps g w e).
+Proof.
+  unfold load_deps, recorded_deps, edge_outs.
+  destruct (ei_deps (g_edge g e)).
+  - intros H; inversion H; subst. apply incl_nil_l.
+  - destruct (ei_outs (g_edge g e)) as [|o0 outs]; [discriminate|].
+    destruct (w_depfile w e) as [| | |douts dins]; try discriminate.
+    destruct douts as [|p douts]; [discriminate|].
+    destruct (negb (Nat.eqb p o0)); [discriminate|].
+    destruct (forallb _ _); [|discriminate].
+    intros H; inversion H; subst. apply incl_refl.
+  - destruct (ei_outs (g_edge g e)) as [|o0 outs]; [discriminate|].
+    destruct (w_dlog w o0) as [[dm nodes]|]; [|discriminate].
+    destruct (Z.gtb _ _); [discriminate|].
+    intros H; inversion H; subst. apply incl_refl.
+Qed.
+
+Definition deps_step (e : edge) (s5 s6 : sstate) (new_ins : list node) : Prop :=
+  (forall e', e' <> e -> st_edge s6 e' = st_edge s5 e') /\ mark_of s6 e = mark_of s5 e /\
+  (forall x, In x (ins_of s6 e) <-> In x (ins_of s5 e) \/ In x new_ins) /\
+  incl new_ins (recorded_deps g w e).
+
+Lemma deps_step_nil e s : deps_step e s s [].
+Proof.
+  split; [reflexivity|]. split; [reflexivity|]. split; [|apply incl_nil_l].
+  intros x. cbn [In]. tauto.
+Qed.
+
+Lemma deps_step_splice e s new_ins :
+  incl new_ins (recorded_deps g w e) -> deps_step e s (splice_deps g s e new_ins) new_ins.
+Proof.
+  intros Hinc. destruct (splice_deps_props e s new_ins) as [A [B C]].
+  split; [exact A|]. split; [exact B|]. split; [|exact Hinc].
+  intros x. rewrite C. apply in_splice.
+Qed.
+
+Lemma local_mid e s3 ins0 :
+  forall s4 mri dirty, eval_inputs g e ins0 0 s3 None false = (s4, mri, dirty) ->
+  forall dirty1 s5, (if dirty then (true, s4) else outputs_dirty_all g w e (edge_outs g e) mri s4) = (dirty1, s5) ->
+  local e s3 s5.
+Proof.
+  intros s4 mri dirty He dirty1 s5 Ho.
+  apply (local_trans e s3 s4 s5); [eapply local_eval_inputs; exact He|].
+  destruct dirty.
+  - inversion Ho; subst. apply local_refl.
+  - apply local_of_edge_eq.
+    pose proof (st_edge_outputs_dirty_all e mri (edge_outs g e) s4) as H. rewrite Ho in H. exact H.
+Qed.
+
+Section Frame.
+Variables (f : nat) (stack : list node) (n : node) (e : edge) (s : sstate) (vs : list node).
+Hypothesis Hprod : g_producer g n = Some e.
+Hypothesis Hnone : mark_of s e = VisitNone.
+Let visit := rnd f (stack ++ [n]).
+Let s2 := stat_outputs w (enter_edge s e) (edge_outs g e).
+Let vs1 := vs ++ ei_vals (g_edge g e).
+
+Lemma rnd_none_unfold :
+  rnd (S f) stack n (s, vs) =
+  match visit_all visit (ins_of s2 e) (s2, vs1) with
+  | SOk (s3, vs3) => after_inputs g w visit e (es_deps_loaded (st_edge s e)) s3 vs3
+  | err => err
+  end.
+Proof.
+  cbn [recompute_node_dirty]. rewrite Hprod, Hnone. reflexivity.
+Qed.
+
+Lemma after_inputs_ok was_loaded s3 vs3 s' vs' :
+  after_inputs g w visit e was_loaded s3 vs3 = SOk (s', vs') ->
+  exists s5 new_ins s6 s7 s8 d,
+    local e s3 s5 /\ deps_step e s5 s6 new_ins /\
+    visit_all visit new_ins (s6, vs3) = SOk (s7, vs') /\
+    local e s7 s8 /\ s' = finish_edge g s8 e d.
+Proof.
+  unfold after_inputs.
+  destruct (eval_inputs g e (ins_of s3 e) 0 s3 None false) as [[s4 mri] dirty] eqn:He.
+  destruct (if dirty then (true, s4) else outputs_dirty_all g w e (edge_outs g e) mri s4)
+    as [dirty1 s5] eqn:Ho.
+  pose proof (local_mid e s3 _ s4 mri dirty He dirty1 s5 Ho) as L35.
+  assert (Simple : forall sX d, local e s5 sX ->
+            exists s5' new_ins s6 s7 s8 d',
+              local e s3 s5' /\ deps_step e s5' s6 new_ins /\
+              visit_all visit new_ins (s6, vs3) = SOk (s7, vs3) /\
+              local e s7 s8 /\ finish_edge g sX e d = finish_edge g s8 e d').
+  { intros sX d LX. exists sX, [], sX, sX, sX, d.
+    split; [apply (local_trans e s3 s5 sX); assumption|].
+    split; [apply deps_step_nil|]. split; [reflexivity|]. split; [apply local_refl|reflexivity]. }
+  destruct was_loaded.
+  - intros H; inversion H; subst. apply Simple. apply local_refl.
+  - destruct dirty1.
+    + destruct (load_deps_try g w s5 e); intros H; inversion H; subst.
+      * apply Simple. apply local_refl.
+      * apply Simple. apply local_set_deps_missing.
+    + destruct (load_deps g w s5 e) as [| |new_ins] eqn:Hl.
+      * intros H; inversion H; subst. apply Simple. apply local_set_deps_missing.
+      * discriminate.
+      * destruct (visit_all visit new_ins (splice_deps g s5 e new_ins, vs3)) as [[s7 vs7]|p|e'|] eqn:Hv;
+          try discriminate.
+        destruct (eval_inputs g e new_ins _ s7 mri false) as [[s8 mri2] dirty2] eqn:He2.
+        intros H; inversion H; subst.
+        exists s5, new_ins, (splice_deps g s5 e new_ins), s7, s8.
+        eexists. split; [exact L35|].
+        split; [apply deps_step_splice; eapply load_deps_recorded; exact Hl|].
+        split; [exact Hv|]. split; [eapply local_eval_inputs; exact He2|reflexivity].
+Qed.
+
+Lemma after_inputs_err was_loaded s3 vs3 r :
+  after_inputs g w visit e was_loaded s3 vs3 = r -> is_err r ->
+  (exists s5 new_ins s6, local e s3 s5 /\ deps_step e s5 s6 new_ins /\
+                         visit_all visit new_ins (s6, vs3) = r) \/
+  r = SLoadErr e.
+Proof.
+  unfold after_inputs.
+  destruct (eval_inputs g e (ins_of s3 e) 0 s3 None false) as [[s4 mri] dirty] eqn:He.
+  destruct (if dirty then (true, s4) else outputs_dirty_all g w e (edge_outs g e) mri s4)
+    as [dirty1 s5] eqn:Ho.
+  pose proof (local_mid e s3 _ s4 mri dirty He dirty1 s5 Ho) as L35.
+  destruct was_loaded.
+  - intros H Hr; subst r. destruct Hr.
+  - destruct dirty1.
+    + destruct (load_deps_try g w s5 e); intros H Hr; subst r; destruct Hr.
+    + destruct (load_deps g w s5 e) as [| |new_ins] eqn:Hl.
+      * intros H Hr; subst r; destruct Hr.
+      * intros H _. right. symmetry; exact H.
+      * destruct (visit_all visit new_ins (splice_deps g s5 e new_ins, vs3)) as [[s7 vs7]|p|e'|] eqn:Hv.
+        -- destruct (eval_inputs g e new_ins _ s7 mri false) as [[s8 mri2] dirty2].
+           intros H Hr; subst r; destruct Hr.
+        -- intros H _. left. exists s5, new_ins, (splice_deps g s5 e new_ins).
+           split; [exact L35|]. split; [apply deps_step_splice; eapply load_deps_recorded; exact Hl|].
+           rewrite Hv. exact H.
+        -- intros H _. left. exists s5, new_ins, (splice_deps g s5 e new_ins).
+           split; [exact L35|]. split; [apply deps_step_splice; eapply load_deps_recorded; exact Hl|].
+           rewrite Hv. exact H.
+        -- intros H _. left. exists s5, new_ins, (splice_deps g s5 e new_ins).
+           split; [exact L35|]. split; [apply deps_step_splice; eapply load_deps_recorded; exact Hl|].
+           rewrite Hv. exact H.
+Qed.
+
+Lemma rnd_none_ok s' vs' :
+  rnd (S f) stack n (s, vs) = SOk (s', vs') ->
+  exists s3 vs3 s5 new_ins s6 s7 s8 d,
+    visit_all visit (ins_of s2 e) (s2, vs1) = SOk (s3, vs3) /\
+    local e s3 s5 /\ deps_step e s5 s6 new_ins /\
+    visit_all visit new_ins (s6, vs3) = SOk (s7, vs') /\
+    local e s7 s8 /\ s' = finish_edge g s8 e d.
+Proof.
+  rewrite rnd_none_unfold.
+  destruct (visit_all visit (ins_of s2 e) (s2, vs1)) as [[s3 vs3]|p|e'|] eqn:Hv; try discriminate.
+  intros H. destruct (after_inputs_ok _ s3 vs3 s' vs' H) as [s5 [new_ins [s6 [s7 [s8 [d Hd]]]]]].
+  exists s3, vs3, s5, new_ins, s6, s7, s8, d. split; [reflexivity|exact Hd].
+Qed.
+
+Lemma rnd_none_err r :
+  rnd (S f) stack n (s, vs) = r -> is_err r ->
+  visit_all visit (ins_of s2 e) (s2, vs1) = r \/
+  (exists s3 vs3 s5 new_ins s6,
+      visit_all visit (ins_of s2 e) (s2, vs1) = SOk (s3, vs3) /\
+      local e s3 s5 /\ deps_step e s5 s6 new_ins /\ visit_all visit new_ins (s6, vs3) = r) \/
+  r = SLoadErr e.
+Proof.
+  rewrite rnd_none_unfold.
+  destruct (visit_all visit (ins_of s2 e) (s2, vs1)) as [[s3 vs3]|p|e'|] eqn:Hv.
+  - intros H Hr. destruct (after_inputs_err _ s3 vs3 r H Hr) as [[s5 [new_ins [s6 Hd]]]|Hd].
+    + right; left. exists s3, vs3, s5, new_ins, s6. split; [reflexivity|exact Hd].
+    + right; right. exact Hd.
+  - intros H _. left. exact H.
+  - intros H _. left. exact H.
+  - intros H _. left. exact H.
+Qed.
+
+(* the state in which the inputs are visited *)
+Lemma s2_props :
+  (forall e', e' <> e -> st_edge s2 e' = st_edge s e') /\
+  mark_of s2 e = VisitInStack /\ ins_of s2 e = ins_of s e.
+Proof.
+  subst s2. rewrite st_edge_stat_outputs. apply enter_edge_props.
+Qed.
+
+End Frame.
+
+(* inputs only grow, and only by recorded deps *)
+Definition grow (s s' : sstate) : Prop :=
+  forall e, incl (ins_of s' e) (ins_of s e ++ recorded_deps g w e).
+
+Lemma grow_of_ins_eq a b : (forall e, ins_of b e = ins_of a e) -> grow a b.
+Proof. intros H e. rewrite H. apply incl_appl, incl_refl. Qed.
+
+Lemma grow_refl a : grow a a.
+Proof. apply grow_of_ins_eq. reflexivity. Qed.
+
+Lemma grow_trans a b c : grow a b -> grow b c -> grow a c.
+Proof.
+  intros H K e x Hx. apply K in Hx. apply in_app_or in Hx. destruct Hx as [Hx|Hx].
+  - apply H. exact Hx.
+  - apply in_or_app. right. exact Hx.
+Qed.
+
+Lemma ins_eq_of_local e a b : local e a b -> forall e', ins_of b e' = ins_of a e'.
+Proof.
+  intros [H1 [_ H3]] e'. destruct (Nat.eq_dec e' e) as [->|Hne]; [exact H3|].
+  rewrite (H1 e' Hne). reflexivity.
+Qed.
+
+Lemma grow_of_deps_step e a b new_ins : deps_step e a b new_ins -> grow a b.
+Proof.
+  intros [H1 [_ [H3 H4]]] e' x Hx. destruct (Nat.eq_dec e' e) as [->|Hne].
+  - apply H3 in Hx. apply in_or_app. destruct Hx as [Hx|Hx]; [left; exact Hx|right; apply H4; exact Hx].
+  - rewrite (H1 e' Hne) in Hx. apply in_or_app. left; exact Hx.
+Qed.
+
+Lemma frame_of_deps_step e a b new_ins : deps_step e a b new_ins -> frame e a b.
+Proof.
+  intros [H1 [H2 _]]. split; [|exact H2]. intros e' Hne. apply clause_of_eq. apply H1; exact Hne.
+Qed.
+
+Definition done_of (i : node) (s : sstate) : Prop :=
+  forall e, g_producer g i = Some e -> mark_of s e = VisitDone.
+
+(* (A) what a successful visit guarantees *)
+Lemma rnd_ok : forall f stack n s vs s' vs',
+  rnd f stack n (s, vs) = SOk (s', vs') ->
+  ext s s' /\ grow s s' /\ done_of n s'.
+Proof.
+  induction f as [|f IH]; intros stack n s vs s' vs' H; [discriminate|].
+  destruct (g_producer g n) as [e|] eqn:Hp.
+  2:{ cbn [recompute_node_dirty] in H. rewrite Hp in H.
+      assert (E : st_edge s' = st_edge s).
+      { destruct (n_known (st_node s n)); inversion H; subst; [reflexivity|].
+        cbn [set_dirty upd_node st_edge]. apply st_edge_stat_if_necessary. }
+      split; [apply ext_of_edge_eq; exact E|]. split.
+      - apply grow_of_ins_eq. intros e. rewrite E. reflexivity.
+      - intros e He. rewrite Hp in He. discriminate. }
+  destruct (mark_of s e) eqn:Hm.
+  - (* unmarked: the real work *)
+    destruct (rnd_none_ok f stack n e s vs Hp Hm s' vs' H)
+      as [s3 [vs3 [s5 [new_ins [s6 [s7 [s8 [d [V1 [L35 [D56 [V2 [L78 Hs']]]]]]]]]]]]].
+    destruct (s2_props e s) as [A2 [M2 I2]].
+    set (s2 := stat_outputs w (enter_edge s e) (edge_outs g e)) in *.
+    set (R := fun a b : sv => ext (fst a) (fst b) /\ grow (fst a) (fst b)).
+    set (Q := fun (i : node) (a : sv) => done_of i (fst a)).
+    assert (Rrefl : forall a, R a a) by (intros a; split; [apply ext_refl|apply grow_refl]).
+    assert (Rtrans : forall a b c, R a b -> R b c -> R a c).
+    { intros a b c [H1 H2] [K1 K2]. split; [eapply ext_trans; eassumption|eapply grow_trans; eassumption]. }
+    assert (Qst : forall i a0 a1, R a0 a1 -> Q i a0 -> Q i a1).
+    { intros i a0 a1 [H1 _] HQ e' He'. apply (ext_done (fst a0) (fst a1) e' H1). apply HQ; exact He'. }
+    assert (Hstep : forall l i (a0 a1 : sv), In i l -> True -> rnd f (stack ++ [n]) i a0 = SOk a1 ->
+                                     True /\ R a0 a1 /\ Q i a1).
+    { intros l i [sa va] [sb vb] _ _ Hv. destruct (IH _ _ _ _ _ _ Hv) as [E [G D]].
+      split; [exact I|]. split; [split; assumption|exact D]. }
+    destruct (visit_all_rel (fun _ => True) R Q _ Rrefl Rtrans Qst _ (Hstep _) _ _ I V1) as [_ [[E23 G23] _]].
+    destruct (visit_all_rel (fun _ => True) R Q _ Rrefl Rtrans Qst _ (Hstep _) _ _ I V2) as [_ [[E67 G67] _]].
+    cbn [fst] in E23, G23, E67, G67.
+    assert (F23 : frame e s2 s3) by (apply frame_of_ext; [exact E23|rewrite M2; discriminate]).
+    assert (F26 : frame e s2 s6).
+    { eapply frame_trans; [exact F23|]. eapply frame_trans; [apply frame_of_local; exact L35|].
+      eapply frame_of_deps_step; exact D56. }
+    assert (M6 : mark_of s6 e = VisitInStack) by (rewrite (proj2 F26); exact M2).
+    assert (F28 : frame e s2 s8).
+    { eapply frame_trans; [exact F26|]. eapply frame_trans; [apply frame_of_ext; [exact E67|rewrite M6; discriminate]|].
+      apply frame_of_local; exact L78. }
+    destruct (finish_edge_props e s8 d) as [A9 [M9 I9]]. rewrite <- Hs' in A9, M9, I9.
+    split; [|split].
+    + intros e'. destruct (Nat.eq_dec e' e) as [->|Hne].
+      * unfold clause. rewrite Hm. right. exact M9.
+      * apply (clause_trans s s2 s' e'); [apply clause_of_eq; apply A2; exact Hne|].
+        apply (clause_trans s2 s8 s' e'); [apply (proj1 F28); exact Hne|].
+        apply clause_of_eq. apply A9; exact Hne.
+    + apply (grow_trans s s2 s').
+      { apply grow_of_ins_eq. intros e'. destruct (Nat.eq_dec e' e) as [->|Hne]; [exact I2|].
+        rewrite (A2 e' Hne). reflexivity. }
+      apply (grow_trans s2 s3 s' G23).
+      apply (grow_trans s3 s5 s'); [apply grow_of_ins_eq, (ins_eq_of_local e); exact L35|].
+      apply (grow_trans s5 s6 s'); [eapply grow_of_deps_step; exact D56|].
+      apply (grow_trans s6 s7 s' G67).
+      apply (grow_trans s7 s8 s'); [apply grow_of_ins_eq, (ins_eq_of_local e); exact L78|].
+      apply grow_of_ins_eq. intros e'. destruct (Nat.eq_dec e' e) as [->|Hne]; [exact I9|].
+      rewrite (A9 e' Hne). reflexivity.
+    + intros e' He'. rewrite Hp in He'. inversion He'; subst e'. exact M9.
+  - cbn [recompute_node_dirty] in H. rewrite Hp, Hm in H. discriminate.
+  - cbn [recompute_node_dirty] in H. rewrite Hp, Hm in H. inversion H; subst.
+    split; [apply ext_refl|]. split; [apply grow_refl|].
+    intros e' He'. rewrite Hp in He'. inversion He'; subst e'. exact Hm.
+Qed.
+
+(* ================================================================== Part 2: C17 soundness *)
+Notation pot := (pot_ins g w).
+Notation step := (step_via g pot).
+Notation walk := (walk_via g pot).
+
+Lemma recorded_in_pot e : incl (recorded_deps g w e) (pot e).
+Proof. unfold pot_ins. apply incl_appr, incl_refl. Qed.
+
+(* marks InStack unchanged, inputs grown by recorded deps *)
+Definition mg (a b : sstate) : Prop :=
+  (forall e, mark_of b e = VisitInStack <-> mark_of a e = VisitInStack) /\ grow a b.
+
+Lemma mg_trans a b c : mg a b -> mg b c -> mg a c.
+Proof.
+  intros [H1 H2] [K1 K2]. split; [|eapply grow_trans; eassumption].
+  intros e. rewrite K1. apply H1.
+Qed.
+
+Lemma mg_of_ext a b : ext a b -> grow a b -> mg a b.
+Proof. intros H G. split; [|exact G]. intros e. apply ext_instack_iff; exact H. Qed.
+
+Lemma marks_eq_of_local e a b : local e a b -> forall e', mark_of b e' = mark_of a e'.
+Proof.
+  intros [H1 [H2 _]] e'. destruct (Nat.eq_dec e' e) as [->|Hne]; [exact H2|].
+  rewrite (H1 e' Hne). reflexivity.
+Qed.
+
+Lemma mg_of_local e a b : local e a b -> mg a b.
+Proof.
+  intros L. split.
+  - intros e'. rewrite (marks_eq_of_local e a b L). tauto.
+  - apply grow_of_ins_eq, (ins_eq_of_local e); exact L.
+Qed.
+
+Lemma mg_of_deps_step e a b new_ins : deps_step e a b new_ins -> mg a b.
+Proof.
+  intros D. split; [|eapply grow_of_deps_step; exact D].
+  destruct D as [H1 [H2 _]]. intros e'. destruct (Nat.eq_dec e' e) as [->|Hne].
+  - rewrite H2. tauto.
+  - rewrite (H1 e' Hne). tauto.
+Qed.
+
+Definition Inv (stack : list node) (s : sstate) : Prop :=
+  (forall e, mark_of s e = VisitInStack -> exists x, In x stack /\ g_producer g x = Some e) /\
+  (forall e, incl (ins_of s e) (pot e)).
+
+Lemma Inv_mg stack a b : Inv stack a -> mg a b -> Inv stack b.
+Proof.
+  intros [I1 I2] [M G]. split.
+  - intros e He. apply I1. apply M. exact He.
+  - intros e x Hx. apply G in Hx. apply in_app_or in Hx. destruct Hx as [Hx|Hx].
+    + apply I2; exact Hx.
+    + apply recorded_in_pot; exact Hx.
+Qed.
+
+(* ---- walks *)
+Lemma walk_tail x y l : walk (x :: y :: l) -> walk (y :: l).
+Proof. intros H. inversion H; subst. assumption. Qed.
+
+Lemma walk_app_r pre : forall l, l <> [] -> walk (pre ++ l) -> walk l.
+Proof.
+  induction pre as [|x pre IH]; intros l Hl H; [exact H|].
+  cbn [app] in H. destruct (pre ++ l) as [|y r] eqn:E.
+  - destruct pre; [cbn [app] in E; subst; contradiction|discriminate].
+  - apply IH; [exact Hl|]. rewrite E. apply (walk_tail _ _ _ H).
+Qed.
+
+Lemma walk_snoc : forall l n, walk l -> step (last l 0) n -> walk (l ++ [n]).
+Proof.
+  induction l as [|x l IH]; intros n Hw Hs; [inversion Hw|].
+  destruct l as [|y l].
+  - cbn [app last] in *. apply walk_cons; [exact Hs|apply walk_one].
+  - inversion Hw as [|x0 y0 l0 Hxy Hrest]; subst.
+    cbn [app]. apply walk_cons; [exact Hxy|]. apply (IH n Hrest).
+    exact Hs.
+Qed.
+
+Lemma walk_replace_head x n y l :
+  g_producer g x = g_producer g n -> walk (x :: y :: l) -> walk (n :: y :: l).
+Proof.
+  intros Heq Hw. inversion Hw as [|x0 y0 l0 [e [He Hin]] Hrest]; subst.
+  apply walk_cons; [|exact Hrest]. exists e. rewrite <- Heq. split; assumption.
+Qed.
+
+Lemma drop_until_edge_spec e : forall stack,
+  (exists x, In x stack /\ g_producer g x = Some e) ->
+  exists pre x' rest, stack = pre ++ x' :: rest /\ g_producer g x' = Some e /\
+                      drop_until_edge g e stack = x' :: rest.
+Proof.
+  induction stack as [|y stack IH]; intros [x [Hin Hx]]; [destruct Hin|].
+  cbn [drop_until_edge].
+  destruct (g_producer g y) as [e'|] eqn:Hy.
+  - destruct (Nat.eqb_spec e' e) as [->|Hne].
+    + exists [], y, stack. split; [reflexivity|]. split; [exact Hy|reflexivity].
+    + destruct Hin as [->|Hin]; [congruence|].
+      destruct (IH (ex_intro _ x (conj Hin Hx))) as [pre [x' [rest [E1 [E2 E3]]]]].
+      exists (y :: pre), x', rest. split; [rewrite E1; reflexivity|]. split; assumption.
+  - destruct Hin as [->|Hin]; [congruence|].
+    destruct (IH (ex_intro _ x (conj Hin Hx))) as [pre [x' [rest [E1 [E2 E3]]]]].
+    exists (y :: pre), x', rest. split; [rewrite E1; reflexivity|]. split; assumption.
+Qed.
+
+Lemma last_app_cons (pre : list node) x rest d : last (pre ++ x :: rest) d = last (x :: rest) d.
+Proof.
+  induction pre as [|y pre IH]; [reflexivity|].
+  cbn [app]. rewrite <- IH. destruct (pre ++ x :: rest) eqn:E.
+  - destruct pre; discriminate.
+  - reflexivity.
+Qed.
+
+Lemma cycle_path_closed stack n e :
+  g_producer g n = Some e ->
+  (exists x, In x stack /\ g_producer g x = Some e) ->
+  walk stack -> step (last stack 0) n ->
+  closed_walk g w (cycle_path g stack n e).
+Proof.
+  intros Hn Hex Hw Hs.
+  destruct (drop_until_edge_spec e stack Hex) as [pre [x' [rest [E1 [E2 E3]]]]].
+  unfold cycle_path. rewrite E3.
+  assert (Hw' : walk (x' :: rest)).
+  { apply (walk_app_r pre); [discriminate|]. rewrite <- E1. exact Hw. }
+  assert (Hs' : step (last (x' :: rest) 0) n).
+  { rewrite <- (last_app_cons pre), <- E1. exact Hs. }
+  pose proof (walk_snoc _ n Hw' Hs') as Hw2. cbn [app] in Hw2.
+  split; [|split].
+  - destruct (rest ++ [n]) as [|y l] eqn:El; [destruct rest; discriminate|].
+    apply (walk_replace_head x'); [congruence|]. exact Hw2.
+  - cbn [length]. rewrite app_length. cbn [length]. lia.
+  - cbn [hd_error]. f_equal. change (n :: rest ++ [n]) with ((n :: rest) ++ [n]).
+    symmetry. apply last_last.
+Qed.
+
+Lemma Inv_enter stack n e s :
+  g_producer g n = Some e -> Inv stack s ->
+  Inv (stack ++ [n]) (stat_outputs w (enter_edge s e) (edge_outs g e)).
+Proof.
+  intros Hp [I1 I2]. destruct (s2_props e s) as [A2 [M2 J2]].
+  set (s2 := stat_outputs w (enter_edge s e) (edge_outs g e)) in *.
+  split.
+  - intros e' He'. destruct (Nat.eq_dec e' e) as [->|Hne].
+    + exists n. split; [apply in_or_app; right; left; reflexivity|exact Hp].
+    + rewrite (A2 e' Hne) in He'. destruct (I1 e' He') as [x [Hx Hpx]].
+      exists x. split; [apply in_or_app; left; exact Hx|exact Hpx].
+  - intros e'. destruct (Nat.eq_dec e' e) as [->|Hne]; [rewrite J2; apply I2|].
+    rewrite (A2 e' Hne). apply I2.
+Qed.
+
+(* Inv is kept by the successful visits of a frame *)
+Lemma visit_all_Inv f st l a a' :
+  Inv st (fst a) -> visit_all (rnd f st) l a = SOk a' -> mg (fst a) (fst a').
+Proof.
+  intros _ V.
+  set (R := fun a b : sv => mg (fst a) (fst b)).
+  assert (Rrefl : forall a, R a a).
+  { intros x. split; [tauto|apply grow_refl]. }
+  assert (Rtrans : forall a b c, R a b -> R b c -> R a c) by (intros x y z; apply mg_trans).
+  destruct (visit_all_rel (fun _ => True) R (fun _ _ => True) (rnd f st) Rrefl Rtrans
+                          (fun _ _ _ _ _ => I) l) with (a := a) (a' := a') as [_ [HR _]]; [|exact I|exact V|exact HR].
+  intros i [sa va] [sb vb] _ _ Hv. destruct (rnd_ok _ _ _ _ _ _ _ Hv) as [E [G _]].
+  split; [exact I|]. split; [|exact I]. apply mg_of_ext; assumption.
+Qed.
+
+Lemma rnd_cycle : forall f stack n s vs p,
+  rnd f stack n (s, vs) = SCycle p ->
+  Inv stack s -> (stack = [] \/ (walk stack /\ step (last stack 0) n)) ->
+  closed_walk g w p.
+Proof.
+  induction f as [|f IH]; intros stack n s vs p H HI Hst; [discriminate|].
+  destruct (g_producer g n) as [e|] eqn:Hp.
+  2:{ cbn [recompute_node_dirty] in H. rewrite Hp in H.
+      destruct (n_known (st_node s n)); discriminate. }
+  destruct (mark_of s e) eqn:Hm.
+  - (* unmarked *)
+    assert (Hw1 : walk (stack ++ [n])).
+    { destruct Hst as [->|[Hw Hs]]; [apply walk_one|apply walk_snoc; assumption]. }
+    assert (Hlast : last (stack ++ [n]) 0 = n) by apply last_last.
+    pose proof (Inv_enter stack n e s Hp HI) as HI2.
+    destruct (s2_props e s) as [A2 [M2 J2]].
+    set (s2 := stat_outputs w (enter_edge s e) (edge_outs g e)) in *.
+    assert (Hsub : forall i a0, (In i (ins_of s e) \/ In i (recorded_deps g w e)) ->
+                                Inv (stack ++ [n]) (fst a0) ->
+                                rnd f (stack ++ [n]) i a0 = SCycle p -> closed_walk g w p).
+    { intros i [sa va] Hi HIa Hv. apply (IH (stack ++ [n]) i sa va p Hv HIa).
+      right. split; [exact Hw1|]. rewrite Hlast. exists e. split; [exact Hp|].
+      destruct Hi as [Hi|Hi]; [apply (proj2 HI); exact Hi|apply recorded_in_pot; exact Hi]. }
+    assert (Pstep : forall l i (a0 a1 : sv), In i l -> Inv (stack ++ [n]) (fst a0) ->
+                      rnd f (stack ++ [n]) i a0 = SOk a1 -> Inv (stack ++ [n]) (fst a1)).
+    { intros l i [sa va] [sb vb] _ HIa Hv. destruct (rnd_ok _ _ _ _ _ _ _ Hv) as [E [G _]].
+      apply (Inv_mg _ sa sb HIa). apply mg_of_ext; assumption. }
+    destruct (rnd_none_err f stack n e s vs Hp Hm (SCycle p) H I) as [V1|[V2|V3]].
+    + destruct (visit_all_err (fun a => Inv (stack ++ [n]) (fst a)) _ _ _ _ (Pstep _) HI2 V1 I)
+        as [i [a0 [Hi [HIa Hv]]]].
+      apply (Hsub i a0); [left; rewrite <- J2; exact Hi|exact HIa|exact Hv].
+    + destruct V2 as [s3 [vs3 [s5 [new_ins [s6 [V1 [L35 [D56 V2]]]]]]]].
+      assert (HI6 : Inv (stack ++ [n]) s6).
+      { apply (Inv_mg _ s2 s6 HI2).
+        eapply mg_trans; [apply (visit_all_Inv f _ _ _ _ HI2 V1)|]. cbn [fst].
+        eapply mg_trans; [eapply mg_of_local; exact L35|eapply mg_of_deps_step; exact D56]. }
+      destruct (visit_all_err (fun a => Inv (stack ++ [n]) (fst a)) _ _ _ _ (Pstep _) HI6 V2 I)
+        as [i [a0 [Hi [HIa Hv]]]].
+      apply (Hsub i a0); [right; apply (proj2 (proj2 (proj2 D56))); exact Hi|exact HIa|exact Hv].
+    + discriminate.
+  - (* in the stack: the cycle is reported here *)
+    cbn [recompute_node_dirty] in H. rewrite Hp, Hm in H. inversion H; subst p.
+    destruct (proj1 HI e Hm) as [x [Hx Hpx]].
+    destruct Hst as [->|[Hw Hs]]; [destruct Hx|].
+    apply cycle_path_closed; [exact Hp|exists x; split; assumption|exact Hw|exact Hs].
+  - cbn [recompute_node_dirty] in H. rewrite Hp, Hm in H. discriminate.
 Qed.
 
 End Proofs.
